@@ -4,207 +4,277 @@ from __future__ import annotations
 import ast
 
 from .. import astutil as A
+from .. import sym as S
 from ..core import AnalysisError, Collector
-from ..refsmodel import RefClass, ref_classes, _local_alias, resolve_local
-from .common import FnCtx, fnctx, has_guard, is_method_call, test_is_none
+from ..refterms import BASEREF, RefModel, is_ref_test, unmk
+from .common import SCtx, sctx
+from .c04 import model
 
 PROP = "C05"
 FLOORS = {"C05.R1": 25, "C05.R2": 7, "C05.R3": 7, "C05.R4": 5}
 META = {
-    "explanation": "Per node class (every subclass of BaseRef, discovered from the class table): every field that _get_value evaluates "
-                   "through _mk_value -- directly or element-wise -- is traversed by the _get_dependencies that applies to the class, "
-                   "under an `isinstance(x, BaseRef)` test and into the shared accumulator; the whole _get_dependencies family returns a "
-                   "set for out=None (interprocedural nullness) and, when an accumulator is passed, adds to that very object even when it "
-                   "is still empty (callers ignore the return value); MutableRef adds owner, key and itself; a container Ref adds nothing.",
-    "decides": "read-set is a subset of dep-set per class and slot; never None; accumulator discipline",
+    "explanation": "Per node class (every subclass of BaseRef, discovered from the class table): every slot that _get_value evaluates "
+                   "through _mk_value -- directly or element-wise -- is traversed by the _get_dependencies that applies to the class "
+                   "ON EVERY PATH on which the slot holds a reference (a path that returns early, or a guard narrower than "
+                   "`isinstance(x, BaseRef)`, is a violation), into the shared accumulator; the whole _get_dependencies family returns "
+                   "a set for out=None (path-sensitive nullness) and, when an accumulator is passed, adds to that very object even when "
+                   "it is still empty (callers ignore the return value); MutableRef adds owner, key and itself; a container Ref adds nothing.",
+    "decides": "read-set is a subset of dep-set per class and slot on all paths; never None; accumulator discipline",
     "not_decided": "the perturb-one-location semantic statement (follows from these and C04 by induction, not separately checked)",
     "assumptions": ["expression nodes are built through the library's operators (UnaryOpExpr's operand is a ref)"],
 }
 
 
-def _readset(col, rule="C05.R1"):
-    repo = col.repo
-    for rc in ref_classes(repo):
-        if rc.abstract and rc.name not in ("MutableRef",):
-            continue
-        reads = rc.value_reads() or set()
-        d = rc.dep_fields()
-        if d is None:
-            raise AnalysisError(f"{rc.name}: no _get_dependencies resolves")
-        k, fn, deps = d
-        if rc.name in ("Ref", "ObjectAttrRef"):
-            # a container label is not a location: it reports nothing (C05.R4)
-            continue
-        for f in sorted(reads):
-            col.add(rule, f"{rc.name}#reads:{f}", f in deps, k.module.loc(fn),
-                    f"the slot `{f}` that {rc.name}._get_value evaluates is traversed by the _get_dependencies that applies "
-                    f"({k.name}._get_dependencies)", f"traversed slots: {sorted(deps)}")
-    # every traversal of a possibly-literal slot is guarded by isinstance(x, BaseRef); unguarded only where documented
-    seen = set()
-    for rc in ref_classes(repo):
-        d = rc.dep_fields()
-        if d is None or id(d[1]) in seen:
-            continue
-        seen.add(id(d[1]))
-        k, fn, deps = d
-        cx = FnCtx(k.module, k, fn)
-        alias = _local_alias(fn)
-        for nid in cx.call_nodes(lambda c: is_method_call(c, "_get_dependencies")):
-            for c in cx.calls_at(nid, lambda c: is_method_call(c, "_get_dependencies")):
-                recv = c.func.value
-                rs = A.src(recv)
+def _slots_read(rm: RefModel, cname: str):
+    """slot terms (self.F, ∈self.F, ∈self.F.i) that cname._get_value evaluates through _mk_value"""
+    sx = rm.sx(cname, "_get_value")
+    out = set()
+    if sx is None:
+        return out
+    terms = []
+    for ev in sx.events:
+        if ev.kind == "call":
+            terms.append(ev.term)
+        elif ev.kind == "return" and ev.value is not None:
+            terms.append(ev.value)
+    for t in terms:
+        for s in S.subterms(t):
+            inner = unmk(s)
+            if inner is not None:
+                for a in S.alts(inner):
+                    out.add(a)
+    return out
 
-                def isref(t, rs=rs, recv=recv):
-                    return isinstance(t, ast.Call) and A.call_name(t) == "isinstance" and len(t.args) == 2 and \
-                        (A.src(t.args[0]) == rs or A.src(resolve_local(t.args[0], alias)) == A.src(resolve_local(recv, alias))) \
-                        and A.dotted(t.args[1]) == "BaseRef"
-                guarded = has_guard(cx.cfg, nid, "T", isref)
-                other_guards = [g for g in cx.cfg.guards(nid) if not isinstance(g.ast, ast.For) and not (g.kind == "T" and isref(g.ast))]
-                if k.name == "UnaryOpExpr":
-                    col.ok(rule, f"{k.name}._get_dependencies#traverse:{rs}", cx.loc(nid),
-                           "unary nodes are only built over refs (documented), the operand is traversed unconditionally", "")
-                    continue
-                col.add(rule, f"{k.name}._get_dependencies#traverse:{rs}", guarded and not other_guards, cx.loc(nid),
-                        f"`{rs}` is traversed exactly when it is a BaseRef (any ref kind: item, attribute, expression, call)",
-                        f"guards: {[g.kind + ':' + A.src(g.ast) for g in cx.cfg.guards(nid) if not isinstance(g.ast, ast.For)]}")
+
+def _field_of_slot(t):
+    while t[:1] in (("elem",), ("item",)):
+        t = t[1]
+    return t[2] if S.is_attr(t, S.SELF) else None
+
+
+def _expand_slot(t):
+    """∈(a, b) ranges over a and b"""
+    if t[:1] == ("elem",) and t[1][:1] in (("tuple",), ("list",)):
+        return list(t[1][1])
+    return [t]
+
+
+def _traversals(sx: SCtx):
+    """[(event, receiver slot term)] for calls X._get_dependencies(...)"""
+    out = []
+    for ev, m in sx.calls_some(("call", ("attr", S.V("x"), "_get_dependencies"), S.ANY, S.ANY)):
+        out.append((ev, m["x"]))
+    return out
+
+
+def _must_traverse(sx: SCtx, slot, trav_nids, guard_slot=None) -> bool:
+    """on every normally returning path the slot is traversed, or it is known not to be a reference"""
+    cfg = sx.cfg
+    g = guard_slot if guard_slot is not None else slot
+    notref = sx.branches(("uop", "not", S.fcall("isinstance", g, BASEREF))) + sx.branches(("uop", "not", S.fcall("is_ref", g)))
+    loops = [gd for n in trav_nids for gd in cfg.guards(n) if gd.kind == "T" and isinstance(gd.ast, (ast.For, ast.AsyncFor))]
+    if slot[:1] in (("elem",), ("item",)) and loops:
+        hdr = loops[0].of
+        tb = loops[0].id
+        fb = [n.id for n in cfg.nodes.values() if n.kind == "F" and n.of == hdr]
+        per_iter = not cfg.path_avoiding(tb, hdr, trav_nids + notref)
+        no_break = cfg.must_pass(tb, cfg.EXIT, fb)
+        reached = cfg.must_pass(cfg.ENTRY, cfg.EXIT, [hdr])
+        return per_iter and no_break and reached
+    return not cfg.path_avoiding(cfg.ENTRY, cfg.EXIT, trav_nids + notref)
+
+
+def _readset(col, rule="C05.R1"):
+    rm = model(col)
+    for c in rm.classes:
+        if (rm.abstract(c.name) and c.name != "MutableRef") or c.name in ("Ref", "ObjectAttrRef"):
+            continue
+        reads = _slots_read(rm, c.name)
+        dsx = rm.sx(c.name, "_get_dependencies")
+        if dsx is None:
+            raise AnalysisError(f"{c.name}: no _get_dependencies resolves")
+        k = rm.defining(c.name, "_get_dependencies")
+        trav = _traversals(dsx)
+        for slot in sorted(reads, key=repr):
+            f = _field_of_slot(slot)
+            if f is None:
+                continue
+            hits = []
+            for ev, x in trav:
+                for a in S.alts(x):
+                    if slot in _expand_slot(a) or a == slot:
+                        hits.append((ev, a))
+            ok = bool(hits) and _must_traverse(dsx, slot, [ev.nid for ev, _ in hits], guard_slot=hits[0][1] if hits else None)
+            col.add(rule, f"{c.name}#reads:{f}", ok, dsx.loc(hits[0][0]) if hits else dsx.loc(dsx.fn),
+                    f"the slot `{S.show(slot)}` that {c.name}._get_value evaluates is traversed by the _get_dependencies that applies "
+                    f"({k.name}._get_dependencies) on every path on which it is a reference",
+                    "traversed: " + str(sorted({S.show(x) for _, x in trav})) + ("" if hits else " -- not this slot")
+                    + ("" if ok or not hits else " -- but a path reaches the exit without traversing it although it may be a reference"))
+    # every traversal of a possibly-literal slot is guarded by isinstance(x, BaseRef) and nothing narrower
+    seen = set()
+    for c in rm.classes:
+        k = rm.defining(c.name, "_get_dependencies")
+        if k is None or k.name in seen:
+            continue
+        seen.add(k.name)
+        dsx = rm.sx(k.name, "_get_dependencies")
+        for ev, x in _traversals(dsx):
+            conds = dsx.conds(ev.nid)
+            refc = [cd for cd in conds if is_ref_test(cd, x)]
+            other = [cd for cd in conds if cd not in refc and not _is_none_test(cd, dsx)]
+            key = f"{k.name}._get_dependencies#traverse:{S.show(x, False)}"
+            if k.name == "UnaryOpExpr" and not conds:
+                col.ok(rule, key, dsx.loc(ev), "unary nodes are only built over refs (documented), the operand is traversed unconditionally", "")
+                continue
+            col.add(rule, key, bool(refc) and not other, dsx.loc(ev),
+                    f"`{S.show(x)}` is traversed exactly when it is a BaseRef (any ref kind: item, attribute, expression, call)",
+                    f"conditions: {[S.show(cd) for cd in conds]}")
+
+
+def _is_none_test(c, sx: SCtx) -> bool:
+    """a condition about the accumulator parameter being (not) None"""
+    ps = [t for t in sx.sym.params.values() if t[:1] == ("param",)]
+    return any(c in (("cmp", "is", p, ("const", "None")), ("cmp", "is not", p, ("const", "None"))) for p in ps)
+
+
+def _impls(rm: RefModel):
+    out = {}
+    for c in rm.classes:
+        if "_get_dependencies" in c.methods:
+            out[c.name] = rm.sx(c.name, "_get_dependencies")
+    if len(out) < 7:
+        raise AnalysisError("fewer than 7 _get_dependencies implementations")
+    return out
+
+
+def _is_fresh(t) -> bool:
+    return (t[:1] == ("acc",) and t[1] == "set") or S.is_call_of(t, ("glob", "set")) or t[:1] == ("set",)
 
 
 def _never_none(col, rule="C05.R2"):
-    """interprocedural: with out=None every implementer returns a set"""
-    repo = col.repo
-    impls = {}
-    for rc in ref_classes(repo):
-        if "_get_dependencies" in rc.c.methods:
-            impls[rc.name] = (rc, rc.c.methods["_get_dependencies"])
-    if len(impls) < 7:
-        raise AnalysisError("fewer than 7 _get_dependencies implementations")
-    status = {}
-
-    def analyse(name):
-        rc, fn = impls[name]
-        cx = FnCtx(rc.c.module, rc.c, fn)
-        P = A.params(fn)
-        if len(P) != 2 or not A.is_none(A.param_defaults(fn).get(P[1])):
-            return False, "signature is not (self, out=None)"
-        out = P[1]
-        rets = [n for n in cx.cfg.nodes.values() if n.kind == "stmt" and isinstance(n.ast, ast.Return)]
-        if not rets or cx.cfg.path_avoiding(cx.cfg.ENTRY, cx.cfg.EXIT, [r.id for r in rets]):
-            return False, "a path falls off the end (returns None)"
+    """path-sensitive: called with out=None every implementer returns a set"""
+    rm = model(col)
+    impls = _impls(rm)
+    results = {}
+    deleg = {}
+    for name, sx in impls.items():
+        fn = rm.cls(name).methods["_get_dependencies"]
+        ps = [t for t in sx.sym.params.values() if t[:1] == ("param",)]
+        if len(ps) != 1 or not A.is_none(A.param_defaults(fn).get(ps[0][2])):
+            results[name] = (False, "signature is not (self, out=None)")
+            continue
+        out = ps[0]
+        cfg = sx.cfg
+        rets = sx.of_kind("return")
+        if not rets or cfg.path_avoiding(cfg.ENTRY, cfg.EXIT, [r.nid for r in rets]):
+            results[name] = (False, "a path falls off the end (returns None)")
+            continue
+        ok, why = True, ""
+        rebinds = [nid for nid in cfg.nodes for d in sx.cx.rd.defs.get(nid, []) if d.name == out[2] and d.kind in ("assign", "aug")]
+        known = sx.branches(("cmp", "is not", out, ("const", "None"))) + sx.branches(out)
         for r in rets:
-            v = r.ast.value
-            if v is None:
-                return False, "bare return"
-            if isinstance(v, ast.Name) and v.id == out:
-                # every definition of `out` reaching here is a set, or the parameter under a not-None fact
-                ds = cx.defs(out, r.id)
-                for d in ds:
-                    if d.kind == "param":
-                        # param may be None unless the path is dominated by a repair: `if out is None: out = set()`
-                        repaired = any(dd.kind == "assign" and has_guard(cx.cfg, dd.nid, "T", lambda t: test_is_none(t, out))
-                                       for dd in ds)
-                        if not repaired:
-                            return False, f"returns the parameter `{out}` unrepaired (None when called without accumulator)"
-                    elif d.kind == "assign":
-                        if not _is_fresh_set(d.value, out):
-                            return False, f"`{out}` rebound to {A.src(d.value)}"
+            if r.node.value is None:
+                ok, why = False, "bare return"
                 continue
-            if _is_fresh_set(v, out):
-                continue
-            if isinstance(v, ast.Call) and is_method_call(v, "_get_dependencies"):
-                # delegation: all implementers that the receiver's slot may hold must be non-None; conservatively: all
-                status.setdefault(name, "pending")
-                continue
-            return False, f"returns {A.src(v)}"
-        return True, ""
-
-    results = {n: analyse(n) for n in impls}
+            for a in S.instances(r.value):
+                if a == out:
+                    # the parameter itself: only on paths where it is known not to be None
+                    if cfg.path_avoiding(cfg.ENTRY, r.nid, rebinds + known):
+                        ok, why = False, f"returns the parameter `{out[2]}` unrepaired (None when called without accumulator)"
+                elif _is_fresh(a):
+                    continue
+                elif a[:1] == ("bool",) and a[1] == "or" and _is_fresh(a[2][-1]):
+                    continue
+                elif S.is_call_of(a, meth="_get_dependencies"):
+                    deleg[name] = True
+                elif a == ("const", "None"):
+                    ok, why = False, "returns None"
+                else:
+                    ok, why = False, f"returns {S.show(a)}"
+        results[name] = (ok, why)
     all_ok = all(ok for ok, _ in results.values())
     for n, (ok, why) in sorted(results.items()):
-        rc, fn = impls[n]
-        deleg = any(isinstance(r.value, ast.Call) and is_method_call(r.value, "_get_dependencies") for r in A.walk(fn) if isinstance(r, ast.Return) and r.value is not None)
-        if ok and deleg and not all_ok:
+        sx = impls[n]
+        if ok and deleg.get(n) and not all_ok:
             ok, why = False, "delegates to an implementer that may return None: " + ", ".join(k for k, (o, _) in results.items() if not o)
-        col.add(rule, f"{n}._get_dependencies#returns-a-set", ok, rc.c.module.loc(fn),
+        col.add(rule, f"{n}._get_dependencies#returns-a-set", ok, sx.loc(sx.fn),
                 "called without accumulator, _get_dependencies returns a set (possibly empty), never None", why)
-
-
-def _is_fresh_set(v, out) -> bool:
-    if isinstance(v, ast.Call) and A.call_name(v) == "set":
-        return True
-    if isinstance(v, ast.Set):
-        return True
-    if isinstance(v, ast.BoolOp) and isinstance(v.op, ast.Or) and len(v.values) == 2 and A.dotted(v.values[0]) == out \
-            and _is_fresh_set(v.values[1], out):
-        return True
-    if isinstance(v, ast.IfExp) and _is_fresh_set(v.body, out) or isinstance(v, ast.IfExp) and _is_fresh_set(v.orelse, out):
-        return True
-    return False
 
 
 def _accumulator(col, rule="C05.R3"):
     """an implementer that adds anything must add into the *given* accumulator, also when it is empty"""
-    repo = col.repo
-    for rc in ref_classes(repo):
-        if "_get_dependencies" not in rc.c.methods:
+    rm = model(col)
+    for name, sx in _impls(rm).items():
+        ps = [t for t in sx.sym.params.values() if t[:1] == ("param",)]
+        if len(ps) != 1:
             continue
-        fn = rc.c.methods["_get_dependencies"]
-        cx = FnCtx(rc.c.module, rc.c, fn)
-        out = A.params(fn)[1]
-        adds = cx.call_nodes(lambda c: (is_method_call(c, "_get_dependencies") and c.args) or
-                             (isinstance(c.func, ast.Attribute) and c.func.attr in ("add", "update") and A.dotted(c.func.value) == out))
-        q = f"{rc.name}._get_dependencies"
-        if not adds:
-            col.ok(rule, f"{q}#adds-nothing", cx.loc(fn), "adds nothing, the accumulator identity is irrelevant", "")
+        out = ps[0]
+        q = f"{name}._get_dependencies"
+        trav = [(ev, ev.term) for ev, x in _traversals(sx)]
+        adds = [ev for ev, m in sx.calls_some(("call", ("attr", S.V("o"), S.V("m", lambda t: t in ("add", "update"))), S.ANY, S.ANY))]
+        if not trav and not adds:
+            col.ok(rule, f"{q}#adds-nothing", sx.loc(sx.fn), "adds nothing, the accumulator identity is irrelevant", "")
             continue
         bad = []
-        for nid in cx.cfg.nodes:
-            for d in cx.rd.defs.get(nid, []):
-                if d.name == out and d.kind == "assign":
-                    v = d.value
-                    truthy_rebind = isinstance(v, ast.BoolOp) or (isinstance(v, ast.IfExp) and not test_is_none(v.test, out)
-                                                                  and not (A.compare_parts(v.test) and isinstance(A.compare_parts(v.test)[1], ast.IsNot)))
-                    guarded_none = has_guard(cx.cfg, nid, "T", lambda t: test_is_none(t, out))
-                    if truthy_rebind or not (guarded_none or isinstance(v, ast.IfExp)):
-                        bad.append(A.src(d.stmt))
-        col.add(rule, f"{q}#adds-into-given-accumulator", not bad, cx.loc(fn),
+        cfg = sx.cfg
+        for nid in cfg.nodes:
+            for d in sx.cx.rd.defs.get(nid, []):
+                if d.name == out[2] and d.kind == "assign":
+                    v = sx.sym.of(d.value, nid)
+                    for a in S.instances(v):
+                        if a == out:
+                            continue
+                        if _is_fresh(a) and sx.under(nid, ("cmp", "is", out, ("const", "None"))):
+                            continue
+                        bad.append(f"{A.src(d.stmt)} under {[S.show(c) for c in sx.conds(nid)]}")
+        col.add(rule, f"{q}#adds-into-given-accumulator", not bad, sx.loc(sx.fn),
                 "the accumulator passed by the parent node is replaced only when it is None -- never when it is merely empty "
                 "(parents ignore the return value, so a fresh set would lose the dependencies)", f"rebinding: {bad}")
-        # every recursive call forwards the accumulator
         fw = []
-        for nid in cx.call_nodes(lambda c: is_method_call(c, "_get_dependencies")):
-            for c in cx.calls_at(nid, lambda c: is_method_call(c, "_get_dependencies")):
-                a = (c.args + [k.value for k in c.keywords])
-                if not (len(a) == 1 and A.dotted(a[0]) == out):
-                    fw.append(A.src(c))
-        col.add(rule, f"{q}#forwards-accumulator", not fw, cx.loc(fn),
-                "every nested traversal receives the same accumulator", str(fw))
+        for ev, t in trav:
+            for a in S.alts(t):
+                args = list(a[2]) + [v for _, v in a[3]]
+                if not (len(args) == 1 and all(x == out or _is_fresh(x) for x in S.alts(args[0])) and out in S.alts(args[0])):
+                    fw.append(S.show(a))
+        col.add(rule, f"{q}#forwards-accumulator", not fw, sx.loc(sx.fn), "every nested traversal receives the same accumulator", str(fw))
 
 
 def _structure(col, rule="C05.R4"):
     repo = col.repo
-    cx = fnctx(repo, "MutableRef", "_get_dependencies")
-    out = A.params(cx.fn)[1]
-    adds_self = cx.call_nodes(lambda c: isinstance(c.func, ast.Attribute) and c.func.attr == "add" and A.dotted(c.func.value) == out
-                              and len(c.args) == 1 and A.dotted(c.args[0]) == "self")
-    ok = len(adds_self) == 1 and not [g for g in cx.cfg.guards(adds_self[0])] and cx.cfg.must_pass(cx.cfg.ENTRY, cx.cfg.EXIT, adds_self)
-    col.add(rule, "MutableRef._get_dependencies#adds-itself", ok, cx.loc(cx.fn), "an item/attribute location reports itself, unconditionally", "")
-    rc = [r for r in ref_classes(repo) if r.name == "MutableRef"][0]
-    deps = rc.dep_fields()[2]
-    col.add(rule, "MutableRef._get_dependencies#owner-and-key", {"_owner", "_key"} <= set(deps), cx.loc(cx.fn),
-            "an item/attribute location reports the dependencies of its owner and of a computed key", str(sorted(deps)))
+    rm = model(col)
+    sx = rm.sx("MutableRef", "_get_dependencies")
+    out = [t for t in sx.sym.params.values() if t[:1] == ("param",)][0]
+    adds_self = [ev for ev, m in sx.calls_some(("call", ("attr", S.V("o"), "add"), (S.SELF,), ()))
+                 if all(x == out or _is_fresh(x) for x in S.alts(m["o"]))]
+    ok = bool(adds_self) and sx.cfg.must_pass(sx.cfg.ENTRY, sx.cfg.EXIT, [e.nid for e in adds_self])
+    col.add(rule, "MutableRef._get_dependencies#adds-itself", ok, sx.loc(sx.fn), "an item/attribute location reports itself, on every path", "")
+    slots = set()
+    for ev, x in _traversals(sx):
+        for a in S.alts(x):
+            for e in _expand_slot(a):
+                f = _field_of_slot(e)
+                if f:
+                    slots.add(f)
+    col.add(rule, "MutableRef._get_dependencies#owner-and-key", {"_owner", "_key"} <= slots, sx.loc(sx.fn),
+            "an item/attribute location reports the dependencies of its owner and of a computed key", str(sorted(slots)))
+    for s_ in ("_owner", "_key"):
+        hits = [ev.nid for ev, x in _traversals(sx) for a in S.alts(x) if S.sattr(s_) in _expand_slot(a)]
+        gslot = [a for ev, x in _traversals(sx) for a in S.alts(x) if S.sattr(s_) in _expand_slot(a)]
+        col.add(rule, f"MutableRef._get_dependencies#traverses:{s_}-on-every-path", bool(hits) and _must_traverse(sx, gslot[0] if gslot else S.sattr(s_), hits), sx.loc(sx.fn),
+                f"`{s_}` is traversed whenever it is a reference of any kind (expression keys and owners included)", "")
     for cls in ("AttrRef", "ItemRef"):
         c = repo.cls(cls)
-        col.add(rule, f"{cls}#inherits-MutableRef-dependencies", "_get_dependencies" not in c.methods and repo.lookup(c, "_get_dependencies")[0].name == "MutableRef",
+        col.add(rule, f"{cls}#inherits-MutableRef-dependencies", "_get_dependencies" not in c.methods and rm.defining(cls, "_get_dependencies").name == "MutableRef",
                 c.module.loc(c.node), f"{cls} uses MutableRef._get_dependencies", "")
-    cx = fnctx(repo, "Ref", "_get_dependencies")
-    adds = cx.call_nodes(lambda c: isinstance(c.func, ast.Attribute) and c.func.attr in ("add", "update"))
-    col.add(rule, "Ref._get_dependencies#adds-nothing", not adds, cx.loc(cx.fn), "a container label is not a dependency", "")
-    cx = fnctx(repo, "ExprTask", "__init__")
-    ep = A.params(cx.fn)[2]
-    ok = any(isinstance(n, ast.Assign) and A.self_attr(n.targets[0]) == "dependencies" and isinstance(n.value, ast.Call)
-             and is_method_call(n.value, "_get_dependencies", ep) and not n.value.args for n in A.walk(cx.fn))
-    col.add(rule, "ExprTask.__init__#dependencies-from-expression", ok, cx.loc(cx.fn),
-            "an expression task's dependencies are expr._get_dependencies()", "")
+    sx = rm.sx("Ref", "_get_dependencies")
+    adds = sx.calls_some(("call", ("attr", S.ANY, S.V("m", lambda t: t in ("add", "update"))), S.ANY, S.ANY))
+    col.add(rule, "Ref._get_dependencies#adds-nothing", not adds and not _traversals(sx), sx.loc(sx.fn), "a container label is not a dependency", "")
+    sx = sctx(repo, "ExprTask", "__init__")
+    expr = sx.P(1)
+    st = [e for e in sx.of_kind("store") if e.target == S.sattr("dependencies")]
+    ok = len(st) == 1 and st[0].value == S.mcall(expr, "_get_dependencies")
+    col.add(rule, "ExprTask.__init__#dependencies-from-expression", ok, sx.loc(sx.fn),
+            "an expression task's dependencies are expr._get_dependencies()", S.show(st[0].value) if st else "")
 
 
 def check(col: Collector):
